@@ -209,7 +209,7 @@ impl Gen {
             } else {
                 let m = max_of(match nw { 16 => "u16", 32 => "u32", _ => "u64" });
                 let mut ks = vec![0, 1, 2, m / 2, m / 2 + 1, m - 1, m];
-                for _ in 0..(if self.plan.thorough { 400 } else { 12 }) { ks.push(self.rng.next() as u128 & m); }
+                for _ in 0..(if self.plan.thorough { 400 } else { 6 }) { ks.push(self.rng.next() as u128 & m); }
                 ks
             };
             for k in ks {
@@ -262,7 +262,7 @@ impl Gen {
             let x = F::of(pow2(e));
             v.extend([x, F::of(-pow2(e))]);
             if e >= -70 && e <= 70 && e % 4 == 0 { v.extend([x.down(), x.up()]); }
-            e += if e >= -70 && e < 70 || p.thorough { 1 } else { 7 };
+            e += if e >= -70 && e < 70 || p.thorough { 1 } else if F::PREC == 24 { 7 } else { 31 };
         }
         // the target's own lattice k / MAX and the rounding ties (k + 1/2) / MAX, each with both neighbours
         if width_of(to) > 0 {
@@ -425,6 +425,10 @@ struct PairOps {
 fn bulk<A: Fmt + IntoStimulus<B> + FromStimulus<B>, B: Fmt + FromStimulus<A>>(o: &mut Out, g: &mut Gen) {
     let mut xs: Vec<A> = A::inputs(g, B::NAME);
     sort_dedup(&mut xs);
+    if A::NAME == B::NAME && !g.plan.thorough {
+        // the identity conversion: a quarter of the inputs will do
+        xs = xs.into_iter().enumerate().filter(|(i, _)| i % 4 == 0).map(|(_, x)| x).collect();
+    }
     let mut prev: Option<(A, B)> = None;
     for &x in &xs {
         let y = ev_stim::<A, B>(o, x);
@@ -664,7 +668,7 @@ fn main() {
         let plan = if thorough {
             Plan { thorough, rand_unit: 4000, rand_bits: 4000, k255_other: 1, k65535: 8000, kwide: 600, u16_stride: 1, rand_uint: 3000, fmt_n: 40 }
         } else {
-            Plan { thorough, rand_unit: 160, rand_bits: 160, k255_other: 16, k65535: 48, kwide: 24, u16_stride: 199, rand_uint: 60, fmt_n: 3 }
+            Plan { thorough, rand_unit: 120, rand_bits: 120, k255_other: 16, k65535: 48, kwide: 24, u16_stride: 199, rand_uint: 60, fmt_n: 3 }
         };
         let mut g = Gen { plan, rng: Sm64::new(seed_from_env()) };
         if !flag("--sweep-only") {
